@@ -32,6 +32,7 @@ Definition wf_stepb (s : sys) (o : op) : bool :=
       end
   | OJoin _ _ size => size <? 0
   | ONew _ _ _ _ t0 => 0 <=? t0
+  | OOpen _ _ _ _ _ => false
   | _ => true
   end.
 
@@ -57,3 +58,19 @@ Fixpoint pwfb_from (s : sys) (ops : list op) : bool :=
   | o :: ops' => pwf_stepb s o && pwfb_from (fst (step s o)) ops'
   end.
 Definition pwfb (ops : list op) : bool := pwfb_from empty_sys ops.
+
+
+(* histories in which logs are also re-opened over selections of other replicas' entries
+   (Proofs/POpen.v: owf): hash-consistent appends, joins with any bound, any selection *)
+Definition owf_stepb (s : sys) (o : op) : bool :=
+  match o with
+  | OOpen _ _ _ _ _ => true
+  | _ => pwf_stepb s o
+  end.
+
+Fixpoint owfb_from (s : sys) (ops : list op) : bool :=
+  match ops with
+  | [] => true
+  | o :: ops' => owf_stepb s o && owfb_from (fst (step s o)) ops'
+  end.
+Definition owfb (ops : list op) : bool := owfb_from empty_sys ops.
